@@ -27,7 +27,8 @@ pub enum RefMut<'a> {
 	Name(u8, &'a mut JStr),
 	/// 0 field reference 1 method reference: owner, name, descriptor
 	Member(u8, &'a mut JStr, &'a mut JStr, &'a mut JStr),
-	/// 0 declared field 1 declared method (also record components: 0): name, descriptor
+	/// 0 declared field 1 declared method 2 record component (the field of that name; a name that is no
+	/// field name is an error: JVMS 4.7.30 wants an unqualified name): name, descriptor
 	Decl(u8, &'a mut JStr, &'a mut JStr),
 	Encl(&'a mut JStr, &'a mut Option<(JStr, JStr)>),
 	/// enum element value: type descriptor, constant name
@@ -162,7 +163,7 @@ pub fn visit_refs(c: &mut ClassFacts, f: &mut F) {
 	for n in c.nest_members.iter_mut().flatten() { f(RefMut::Name(1, n)); }          // 4.7.29
 	for n in c.permitted_subclasses.iter_mut().flatten() { f(RefMut::Name(1, n)); }  // 4.7.31
 	for r in c.record.iter_mut().flatten() {                                         // 4.7.30
-		f(RefMut::Decl(0, &mut r.name, &mut r.desc));
+		f(RefMut::Decl(2, &mut r.name, &mut r.desc));
 		v_annotations(&mut r.visible_annotations, f); v_annotations(&mut r.invisible_annotations, f);
 		v_type_annotations(&mut r.visible_type_annotations, f); v_type_annotations(&mut r.invisible_type_annotations, f);
 	}
@@ -251,6 +252,10 @@ impl<'a> Answers<'a> {
 			RefVal::Name(1, c) => RefVal::Name(1, self.class_any(c)?),
 			RefVal::Name(k, d) => RefVal::Name(*k, self.desc(d)?),
 			RefVal::Member(k, o, n, d) => { let (o2, n2, d2) = self.member_ref(*k, o, n, d)?; RefVal::Member(*k, o2, n2, d2) }
+			RefVal::Decl(2, n, d) => {
+				if !unqualified(n) { return Err("record component name is no field name".into()); }
+				let (n2, d2) = self.member(0, this, n, d)?; RefVal::Decl(2, n2, d2)
+			}
 			RefVal::Decl(k, n, d) => { let (n2, d2) = self.member(*k, this, n, d)?; RefVal::Decl(*k, n2, d2) }
 			RefVal::Encl(c, Some((n, d))) => { let (c2, n2, d2) = self.member_ref(1, c, n, d)?; RefVal::Encl(c2, Some((n2, d2))) }
 			RefVal::Encl(c, None) => RefVal::Encl(self.class_any(c)?, None),
